@@ -21,15 +21,15 @@ Per backend `b`:
 
 ## Full statements that are FALSE of the current code (negations proved below, with witnesses)
 
-    theorem cpp_post_return_name    : ∀ k f, ∀ x ∈ Cpp.exportFn k f, x ∈ Spec.exportsOfFn k f
     theorem csharp_world_resource   : C# gives a world-level (imported) resource exported-resource glue
     theorem csharp_fs_intrinsic_names : every declaration of `CSharp.addFuturesOrStreams` is a name of the world
-    theorem csharp_post_return_name : ∀ k f, asyncOk k f → ∀ x ∈ CSharp.exportFn k f, x ∈ Spec.exportsOfFn k f
     theorem async_selection_sound   : ∀ k f, (C|Rust|Go|MoonBit).funcImport k f ∈ Spec.importsOfFn k f
                                       (false when the configuration forces the async ABI on a function whose
                                        type is not async: wasmparser rejects the `async` canonical option there)
 
 Each has a `…_full_false` theorem and a `…_partial` theorem with the exact extra hypothesis.
+Three further statements were false when this file was written and hold since the `fix:` commits of
+/repo: `c_dtor_export_name` (97de409), `cpp_post_return_name` (1abddb0), `csharp_post_return_name` (1aeee96).
 -/
 namespace Witverif.Props.C13
 open Witverif.Abi Witverif.Abi.Names
@@ -221,30 +221,20 @@ theorem d_exports_complete (w : World) (hw : w.WF (fun _ f => f.sel = false) (fu
 
 theorem cpp_import_names (k : Key) (f : Fn) : Cpp.funcImport k f = Spec.funcImport .sync k f := Cpp.funcImport_eq k f
 
-/-- FULL STATEMENT (false): every export C++ emits for a function is a name of the world. -/
-def CppPostReturnName : Prop := ∀ k f, ∀ x ∈ Cpp.exportFn k f, x ∈ Spec.exportsOfFn k f
-
-/-- class `cpp-world-post-return-mangled`: world-level `export run-it: func() -> string` gets the
-post-return export `cabi_post_run_it`; the component model expects `cabi_post_run-it`. -/
-theorem cpp_post_return_name_full_false : ¬ CppPostReturnName := by
-  intro h
-  have := h .root (fn .free "" "run-it" false false ⟨false, [], some .string⟩)
-    ⟨"cabi_post_run_it", [.i32], []⟩ (by decide)
-  revert this; decide
+/-- Every export C++ emits for a function is a name of the world.  (FALSE until /repo 1abddb0: the
+post-return export of a world-level function was `cabi_post_` + `make_external_component(name)`,
+e.g. `cabi_post_run_it` for `run-it` — class `cpp-world-post-return-mangled`, refuted here by
+`cpp_post_return_name_full_false` at the time; the model follows the fixed code.) -/
+theorem cpp_post_return_name (k : Key) (f : Fn) : ∀ x ∈ Cpp.exportFn k f, x ∈ Spec.exportsOfFn k f :=
+  Cpp.exportFn_sound k f
 
 theorem cpp_export_names (k : Key) (f : Fn) :
     Spec.funcExport .sync k f .normal = some (Cpp.mainExport k f) ∧
-    ((k = .root → Cpp.makeExternalComponent f.name = f.name) →
-      Spec.funcExport .sync k f .postReturn = some (Cpp.postReturnExport k f)) :=
+    Spec.funcExport .sync k f .postReturn = some (Cpp.postReturnExport k f) :=
   ⟨Cpp.mainExport_eq k f, Cpp.postReturnExport_eq k f⟩
 
-theorem cpp_post_return_name_partial (k : Key) (f : Fn) (h : Cpp.okFn k f) :
-    ∀ x ∈ Cpp.exportFn k f, x ∈ Spec.exportsOfFn k f := Cpp.exportFn_sound k f h
-
-example : Cpp.okFn .root (fn .free "" "run" false false ⟨false, [], some .string⟩) := by
-  intro _ _; decide
-example : Cpp.okFn idI (fn .free "" "run-it" false false ⟨false, [], some .string⟩) := by
-  intro h; exact absurd h (by decide)
+example : Cpp.postReturnExport .root (fn .free "" "run-it" false false ⟨false, [], some .string⟩) =
+    ⟨"cabi_post_run-it", [.i32], []⟩ := by decide
 
 theorem cpp_core_sig (k : Key) (f : Fn) :
     (Cpp.funcImport k f).params = norm (wasmSignature .guestImport f.sig).params ∧
@@ -252,7 +242,7 @@ theorem cpp_core_sig (k : Key) (f : Fn) :
     (Cpp.mainExport k f).params = norm (wasmSignature .guestExport f.sig).params ∧
     (Cpp.mainExport k f).results = norm (wasmSignature .guestExport f.sig).results := ⟨rfl, rfl, rfl, rfl⟩
 
-theorem cpp_world_sound (w : World) (hw : w.WF Cpp.okFn (fun _ _ => True)) :
+theorem cpp_world_sound (w : World) (hw : w.WF (fun _ _ => True) (fun _ _ => True)) :
     (∀ d ∈ Cpp.emit.imports w, d.imp ∈ Spec.allImports w) ∧ (∀ x ∈ Cpp.emit.exports w, x ∈ Spec.allExports w) :=
   ⟨Emit.imports_sound Cpp.sound w hw, Emit.exports_sound Cpp.sound w hw⟩
 
@@ -296,20 +286,15 @@ theorem csharp_export_names (k : Key) (f : Fn) :
     (f.sel = false → Spec.funcExport .sync k f .postReturn = some (CSharp.postReturnExport k f)) :=
   ⟨CSharp.mainExport_eq k f, CSharp.callbackExport_eq k f, CSharp.postReturnExport_eq k f⟩
 
-/-- FULL STATEMENT (false): under a valid async selection every export C# emits is a name of the world. -/
-def CSharpPostReturnName : Prop :=
-  ∀ k f, asyncOk k f → ∀ x ∈ CSharp.exportFn k f, x ∈ Spec.exportsOfFn k f
-
-/-- class `csharp-async-post-return-ignored`: `export get: async func() -> string` additionally
-exports `cabi_post_[async-lift]get`, which the component encoder silently ignores. -/
-theorem csharp_post_return_name_full_false : ¬ CSharpPostReturnName := by
-  intro h
-  have := h .root (fn .free "" "get" true true ⟨false, [], some .string⟩) (by intro _; rfl)
-    ⟨"cabi_post_[async-lift]get", [.i32], []⟩ (by decide)
-  revert this; decide
-
-theorem csharp_post_return_name_partial (k : Key) (f : Fn) (h : CSharp.okFn k f) :
+/-- Under a valid async selection every export C# emits for a function is a name of the world.
+(FALSE until /repo 1aeee96: an async export with a string/list result additionally exported
+`cabi_post_[async-lift]<name>` — class `csharp-async-post-return-ignored`, refuted here by
+`csharp_post_return_name_full_false` at the time; the model follows the fixed code.) -/
+theorem csharp_post_return_name (k : Key) (f : Fn) (h : asyncOk k f) :
     ∀ x ∈ CSharp.exportFn k f, x ∈ Spec.exportsOfFn k f := CSharp.exportFn_sound k f h
+
+example : CSharp.exportFn .root (fn .free "" "get" true true ⟨false, [], some .string⟩) =
+    [⟨"[async-lift]get", [], [.i32]⟩, ⟨"[callback][async-lift]get", [.i32, .i32, .i32], [.i32]⟩] := by decide
 
 /-- the loop of `add_futures_or_streams` numbers the *generated entries* (first occurrence of each
 payload key in lift/lower order, per interface and per kind), not the payload sites of a function -/
@@ -365,7 +350,7 @@ theorem csharp_world_resource_full_false :
     (⟨"[export]$root", "[resource-new]x", [.i32], [.i32]⟩ : Imp) ∈ (CSharp.emit.imports w).map (·.imp) ∧
     (⟨"[export]$root", "[resource-new]x", [.i32], [.i32]⟩ : Imp) ∉ Spec.allImports w := by decide
 
-theorem csharp_world_sound (w : World) (hw : w.WF CSharp.okFn (fun _ _ => True) CSharp.okWorld) :
+theorem csharp_world_sound (w : World) (hw : w.WF asyncOk (fun _ _ => True) CSharp.okWorld) :
     (∀ d ∈ CSharp.emit.imports w, d.imp ∈ Spec.allImports w) ∧ (∀ x ∈ CSharp.emit.exports w, x ∈ Spec.allExports w) :=
   ⟨Emit.imports_sound CSharp.sound w hw, Emit.exports_sound CSharp.sound w hw⟩
 
